@@ -73,6 +73,18 @@ def run_case(c):
     if c["min_len"] != 1 or c["idx"] % 7 == 0:
         calls.append(lambda b: b.with_minimum_substring_length(c["min_len"]))
     rng.shuffle(calls)
+    if c.get("rejected_threshold_call"):
+        # a rejected call (caught by the caller) must leave the builder as it was
+        def rejected(b):
+            for bad in (0, -1):
+                for name in ("with_minimum_repetitions", "with_minimum_substring_length"):
+                    try:
+                        getattr(b, name)(bad)
+                        problems.append({"kind": "wrong_exception", "detail": "%s(%d) did not raise" % (name, bad)})
+                    except ValueError:
+                        pass
+            return b
+        calls.append(rejected)
     for call in calls:
         r = call(b)
         if r is not b and not isinstance(r, grex.RegExpBuilder):
